@@ -157,11 +157,18 @@ def represents(typ, term, v, I, exact):
     raise Unsupported(f"no concrete representation for type {typ}")
 
 
-def obj_represents(o, v, I, exact):
+# documented modelling limit (DESIGN A2 "Aliasing"): the storage shared between an explainer and its imputer is two objects
+# in the model; the imputer's copy is therefore not compared in the POST-state (the explainer's own `_storage` is)
+SHARED_NOT_COMPARED = {('Explainer', '_imputer'): {'storage_object'}, ('BatchExplainer', '_imputer'): {'storage_object'}}
+
+
+def obj_represents(o, v, I, exact, skip=()):
     """constraints for a rooted symbolic object (python-side fields)"""
     out = []
     sp = o.spec()
     for f, t in sp.fields.items():
+        if f in skip:
+            continue
         fv = o.getfield(f)
         if fv is None or fv is NONE:
             continue
@@ -171,7 +178,7 @@ def obj_represents(o, v, I, exact):
         if nv is None or isinstance(t, sym.TFnRole):
             continue
         if isinstance(fv, SObj) and fv.fields is not None:
-            out += obj_represents(fv, nv, I, exact)
+            out += obj_represents(fv, nv, I, exact, () if exact else SHARED_NOT_COMPARED.get((o.cls, f), ()))
         else:
             out += represents(t, pack(fv, t if not isinstance(t, TOpt) else t.t), nv, I, exact)
     return out
@@ -371,7 +378,7 @@ def run_for(function_keys=None, workers=8, seed=0, limit_per_function=None):
     global _CASES
     import multiprocessing as mp
     from . import diffcases
-    allc = diffcases.cases(seed)
+    allc = diffcases.cases(seed) + diffcases.explainer_cases(seed)
     per = {}
     sel = []
     for fk, make in allc:
